@@ -70,6 +70,9 @@ type WorldCfg struct {
 	PreUpstreams      []string
 	NoClient          bool
 	NoServer          bool
+	// Multi-endpoint worlds (C16): rendered server entries and the explicit upstream list.
+	ServerEntries []string
+	Upstreams     []string
 }
 
 type WsPath struct {
@@ -288,10 +291,16 @@ func BuildWorld(r *Run, cfg WorldCfg) (*World, error) {
 			fmt.Fprintf(&y, "  - name: %q\n    address: %q\n", ch.Name, ch.Target)
 		}
 		y.WriteString("servers:\n")
-		entry, up, listen := serverEntry(&cfg, cfg.Carrier, CarrierPort(cfg.Carrier))
-		y.WriteString(indent(entry, 2) + "\n")
-		w.UpstreamURL = up
-		w.ServerAddr = listen
+		if len(cfg.ServerEntries) > 0 {
+			for _, e := range cfg.ServerEntries {
+				y.WriteString(indent(e, 2) + "\n")
+			}
+		} else {
+			entry, up, listen := serverEntry(&cfg, cfg.Carrier, CarrierPort(cfg.Carrier))
+			y.WriteString(indent(entry, 2) + "\n")
+			w.UpstreamURL = up
+			w.ServerAddr = listen
+		}
 		w.ServerYAML = y.String()
 		cmd := serverCmd.NewCommand()
 		if err := yaml.Unmarshal([]byte(w.ServerYAML), cmd); err != nil {
@@ -328,6 +337,48 @@ func BuildWorld(r *Run, cfg WorldCfg) (*World, error) {
 	return w, nil
 }
 
+// RestartServer models a server crash and restart: every socket of the old
+// process is reset, the object graph is dropped, and a new server command is
+// started from the same configuration on the same addresses.
+func (w *World) RestartServer() error {
+	if w.Server != nil {
+		w.Server.Shutdown()
+	}
+	// reset every connection the server process held (accepted carrier connections and its dials to targets)
+	for _, cn := range w.R.Net.Conns() {
+		if cn.Tag == "accept" && !hasPrefix(cn.Key, "tcp|127.0.0.1") && !hasPrefix(cn.Key, "tcp|"+TargetIP) && !hasPrefix(cn.Key, "pipe|") {
+			w.R.Net.Reset(cn)
+			cn.Close()
+		}
+		if cn.Tag == "dial" && hasPrefix(cn.Key, "tcp|"+TargetIP) {
+			w.R.Net.Reset(cn)
+			cn.Close()
+		}
+	}
+	for _, s := range w.R.Net.Socks() {
+		if hasPrefix(s.Key(), "udp|"+ServerIP) {
+			s.Close()
+		}
+	}
+	for _, l := range w.R.Net.Listeners() {
+		if hasPrefix(l.Key(), "tcp|"+ServerIP) || hasPrefix(l.Key(), "unix|sa-") {
+			l.Close()
+		}
+	}
+	cmd := serverCmd.NewCommand()
+	if err := yaml.Unmarshal([]byte(w.ServerYAML), cmd); err != nil {
+		return &ConfigError{Side: "server", Err: err}
+	}
+	w.Server = cmd
+	w.R.Net.SourceIP = ServerIP
+	if err := cmd.Startup(w.interrupted); err != nil {
+		return &ConfigError{Side: "server-restart", Err: err}
+	}
+	w.R.Net.SourceIP = ClientIP
+	w.R.OnCleanup(func() { cmd.Shutdown() })
+	return nil
+}
+
 type ConfigError struct {
 	Side string
 	Err  error
@@ -352,7 +403,13 @@ func (w *World) NewClient(listeners []LsnCfg) (*clientCmd.Command, error) {
 	for _, u := range cfg.PreUpstreams {
 		args = append(args, "-u", u)
 	}
-	args = append(args, "-u", w.UpstreamURL)
+	if len(cfg.Upstreams) > 0 {
+		for _, u := range cfg.Upstreams {
+			args = append(args, "-u", u)
+		}
+	} else {
+		args = append(args, "-u", w.UpstreamURL)
+	}
 	for _, u := range cfg.ExtraUpstreams {
 		args = append(args, "-u", u)
 	}
